@@ -3,7 +3,11 @@ Command loops of `drv_c02` (core Lean only):
 
   drv_c02 seq        `cast <from> <to>` | `bin <op> <t1> <t2>` | `neg <t>` | `not <t>` | `cond <t> <c>` | `if <t> <c>`
                      | `while <t> <c>` | `do <t> <c>` | `and <t1> <t2> <c>` | `or <t1> <t2> <c>`
-                     | `num f32|f64|f80 <bits, decimal>`                    → rendered lines joined by `;;` | `none`
+                     | `num f32|f64|f80 <bits, decimal>`
+                     | `chainret <t0> <t1> … <tn> <ret>`     R f(void) { return (Tn)…(T1)a; }          (Model/FpChain)
+                     | `chainasg <t0> <t1> … <tn> <tg>`      G g; int f(void) { g = (Tn)…(T1)a; return 0; }
+                     | `chaincond <ta> <t1> <tb> <t2> <ret> <c>`   R f(void) { return c ? (T1)a : (T2)b; }
+                                                                            → rendered lines joined by `;;` | `none`
   drv_c02 ctype      `<t1> <t2>`                                            → kind of Gen.getCommonType
   drv_c02 contract   `<name> <decimal operands…>`                           → `ok` | `bad <what the contract requires>` | `unknown`
         decides one FpuSpec contract on an (input, output) pair observed on the CPU, with `val*` read as IEEE decoding:
@@ -23,6 +27,7 @@ Command loops of `drv_c02` (core Lean only):
 import ChibiVerif.Spec.FpuSpec
 import ChibiVerif.Model.FpCodegen
 import ChibiVerif.Model.FpLiteral
+import ChibiVerif.Model.FpChain
 
 namespace ChibiVerif.Driver.Fp
 open ChibiVerif.Gen.CommonType ChibiVerif.FpCodegen ChibiVerif.Asm ChibiVerif.Spec.Fpu
@@ -56,6 +61,18 @@ def specLines (ws : List String) : Option (List Line) :=
   | ["num", "f32", b] => do some (numF32 (BitVec.ofNat 32 (← b.toNat?)))
   | ["num", "f64", b] => do some (numF64 (BitVec.ofNat 64 (← b.toNat?)))
   | ["num", "f80", b] => do some (numF80 (BitVec.ofNat 80 (← b.toNat?)))
+  | "chainret" :: t0 :: rest => do
+      let ts ← rest.mapM tydOf?
+      match ts.reverse with
+      | ret :: mid => some (ChibiVerif.FpChain.fnChainRet (← tydOf? t0) mid.reverse ret)
+      | [] => none
+  | "chainasg" :: t0 :: rest => do
+      let ts ← rest.mapM tydOf?
+      match ts.reverse with
+      | tg :: mid => some (ChibiVerif.FpChain.fnChainAssign (← tydOf? t0) mid.reverse tg)
+      | [] => none
+  | ["chaincond", ta, t1, tb, t2, ret, c] => do
+      ChibiVerif.FpChain.fnChainCond (← tydOf? ta) (← tydOf? t1) (← tydOf? tb) (← tydOf? t2) (← tydOf? ret) (← c.toNat?)
   | _ => none
 
 def seqLine (line : String) : String :=
